@@ -37,6 +37,15 @@ static void vh_sj_out_proof(jout *out, const char *key, const secp256k1_surjecti
     jo_int(out, "sret_short", secp256k1_surjectionproof_serialize(CTX, ser, &len, p));
 }
 
+/* object history: "dirty":1 = the object is pre-filled with 0xff; "prior":[bytes] = another string is parsed into the SAME
+ * object first (prior_ret = that parse's result).  What the API shows afterwards must depend on the last parsed string only. */
+static void vh_sj_history(const jv *in, jout *out, secp256k1_surjectionproof *p) {
+    static unsigned char prior[VH_SJ_MAXSER + 64]; long pl;
+    if (jv_int(in, "dirty", 0)) memset(p, 0xff, sizeof(*p));
+    pl = jv_bytes(in, "prior", prior, sizeof(prior));
+    if (pl >= 0) jo_int(out, "prior_ret", secp256k1_surjectionproof_parse(CTX, p, prior, (size_t)pl));
+}
+
 /* helper for drivers: a real (NUMS) generator from a 32-byte asset id, optionally blinded */
 static void op_SjGen(const jv *in, jout *out) {
     unsigned char tag[32], blind[32], ser[33]; secp256k1_generator g; int ret;
@@ -54,6 +63,7 @@ static void op_SjParse(const jv *in, jout *out) {
     if (rawlen < 0) { fprintf(stderr, "vh: SjParse needs b\n"); exit(3); }
     /* the input lives in a heap block of exactly its length: reads past the end are visible too */
     exact = (unsigned char*)malloc(rawlen ? (size_t)rawlen : 1); memcpy(exact, raw, (size_t)rawlen);
+    vh_sj_history(in, out, p);
     ret = secp256k1_surjectionproof_parse(CTX, p, exact, (size_t)rawlen);
     jo_int(out, "ret", ret);
     if (ret) {
@@ -124,12 +134,14 @@ static void op_SjVerify(const jv *in, jout *out) {
     n = vh_sj_load_gens(in, "gens"); vh_sj_load_gen(in, "gout", &gout);
     ng = (size_t)jv_int(in, "ngens", (long long)n);
     rawlen = jv_bytes(in, "proof", raw, sizeof(raw));
+    vh_sj_history(in, out, p);
     pret = rawlen >= 0 && ng <= n && secp256k1_surjectionproof_parse(CTX, p, raw, (size_t)rawlen);
     jo_int(out, "pret", pret);
     jo_int(out, "ret", pret ? secp256k1_surjectionproof_verify(CTX, p, VH_SJ_GENS, ng, &gout) : 0);
     if (pret) {
         jo_int(out, "nin", (long long)secp256k1_surjectionproof_n_total_inputs(CTX, p));
         jo_int(out, "nused", (long long)secp256k1_surjectionproof_n_used_inputs(CTX, p));
+        vh_sj_out_proof(out, "ser", p);
     }
     free(p);
 }
